@@ -40,6 +40,10 @@ type C14Op struct {
 	Hold   bool           `json:"hold,omitempty"`    // open/change: the analysis this notification starts is held until a release op ...
 	HoldAt int            `json:"hold_at,omitempty"` // ... 0: at its first statement; 1: before it reads its first included file; 2: after it has read its first included file
 	LIFO   bool           `json:"lifo,omitempty"`    // release: last held first
+	// config: the refresh waits with the client's answer in hand until the next request stands between
+	// computing and remembering its document's posting templates; that request then waits for the refresh
+	Rendezvous bool `json:"rendezvous,omitempty"`
+	AtEnd      bool `json:"at_end,omitempty"` // request: on the last line of the document's current text (the blank line after its last header)
 }
 
 type C14Case struct {
@@ -65,6 +69,7 @@ type c14Hooks struct {
 	holdAt   map[string]int  // uri+content -> hold point (see C14Op.HoldAt)
 	armed    map[uint64]int  // analysis goroutines that will be held at a point inside include loading
 	held     []chan struct{} // analyses waiting at a hook point
+	meet     chan struct{}   // non-nil: a refresh waits at config.answer for a request to reach templates.computed
 }
 
 // goid returns the id of the calling goroutine (from the header of its stack trace).
@@ -163,6 +168,32 @@ func (h *c14Hooks) handler(name string, args ...string) {
 	case "diag.done":
 		h.inflight--
 		delete(h.armed, goid())
+	case "config.answer":
+		if ch := h.meet; h.enabled && ch != nil {
+			h.mu.Unlock()
+			select {
+			case <-ch:
+			case <-time.After(2 * time.Second): // no request came that far: the schedule is simply another one
+			}
+			return
+		}
+	case "templates.computed":
+		if ch := h.meet; h.enabled && ch != nil {
+			h.meet = nil
+			target := h.cfgStart
+			h.mu.Unlock()
+			close(ch)
+			for deadline := time.Now().Add(2 * time.Second); time.Now().Before(deadline); {
+				h.mu.Lock()
+				done := h.cfgDone >= target
+				h.mu.Unlock()
+				if done {
+					break
+				}
+				time.Sleep(20 * time.Microsecond)
+			}
+			return
+		}
 	}
 	if h.enabled && (name == "diag.start" || name == "diag.publish" || name == "config.start" || name == "config.answer") && h.next < len(h.delays) {
 		d = h.delays[h.next]
@@ -177,7 +208,7 @@ func (h *c14Hooks) handler(name string, args ...string) {
 func (h *c14Hooks) reset(delays []int, enabled bool) {
 	h.mu.Lock()
 	h.delays, h.next, h.cfgStart, h.cfgDone, h.inflight, h.enabled = delays, 0, 0, 0, 0, enabled
-	h.holdWant, h.holdAt, h.armed, h.held = map[string]int{}, map[string]int{}, map[uint64]int{}, nil
+	h.holdWant, h.holdAt, h.armed, h.held, h.meet = map[string]int{}, map[string]int{}, map[uint64]int{}, nil, nil
 	h.mu.Unlock()
 }
 
@@ -270,6 +301,7 @@ func c14Execute(c *C14Case, sequential bool) (*c14Run, []ev.Discrepancy) {
 	defer env.Cleanup()
 	h := env.H
 	open := map[int]bool{}
+	curText := map[int]string{}
 	version := 1
 	// quiescence apart from the analyses that are being held
 	settle := func(extra int) error {
@@ -320,6 +352,7 @@ func c14Execute(c *C14Case, sequential bool) (*c14Run, []ev.Discrepancy) {
 						}
 						_ = h.Open(uri, text)
 						open[doc] = true
+						curText[doc] = text
 					}
 				case "change":
 					if open[doc] {
@@ -329,6 +362,7 @@ func c14Execute(c *C14Case, sequential bool) (*c14Run, []ev.Discrepancy) {
 							c14h.wantHold(uri, text, op.HoldAt)
 						}
 						_ = h.Change(uri, version, []refclient.Change{{Text: text}})
+						curText[doc] = text
 					}
 				case "save":
 					if open[doc] {
@@ -373,6 +407,11 @@ func c14Execute(c *C14Case, sequential bool) (*c14Run, []ev.Discrepancy) {
 						}
 					}
 					cumCfg = cfg
+					if op.Rendezvous && !sequential {
+						c14h.mu.Lock()
+						c14h.meet = make(chan struct{})
+						c14h.mu.Unlock()
+					}
 					h.C.SetConfig(cfg)
 					_ = h.ChangeConfiguration()
 					cfgCalls++
@@ -382,7 +421,11 @@ func c14Execute(c *C14Case, sequential bool) (*c14Run, []ev.Discrepancy) {
 						run.overlap++
 					}
 					var aerr error
-					resp, aerr = ask2(h, op.Kind, uri, op.Pos)
+					pos := op.Pos
+					if op.AtEnd {
+						pos = refclient.Pos{Line: max(0, strings.Count(curText[doc], "\n")-1)}
+					}
+					resp, aerr = ask2(h, op.Kind, uri, pos)
 					if aerr != nil {
 						panic(aerr)
 					}
@@ -705,6 +748,58 @@ func genC14(t *rapid.T, p *gen.Profile) *C14Case {
 				c.Ops = append(c.Ops, C14Op{Op: "request", Doc: ed.from, Kind: rapid.SampledFrom([]string{"completion", "hover", "references", "inlineCompletion", "completion"}).Draw(t, "lpkind"),
 					Pos: refclient.Pos{Line: rapid.IntRange(0, 12).Draw(t, "lpline"), Char: rapid.IntRange(0, 30).Draw(t, "lpchar")}})
 			}
+		}
+	}
+	if n >= 2 && rapid.IntRange(0, 3).Draw(t, "templatespattern") == 0 {
+		// a request stands between computing and remembering the posting templates of its document
+		// while a configuration refresh lowers the size limit so that the included file the template
+		// comes from is refused; the same request again, after everything has settled
+		type edge struct{ from, to int }
+		var edges []edge
+		for i := 0; i < n; i++ {
+			for _, k := range gen.IncludeTargets(ws.Files[i].Journal, i, n) {
+				if k != i {
+					edges = append(edges, edge{i, k})
+				}
+			}
+		}
+		if len(edges) > 0 {
+			ed := rapid.SampledFrom(edges).Draw(t, "tpedge")
+			c.Pats = append(c.Pats, "pattern:templates-remembered-across-a-limits-change")
+			if rapid.IntRange(0, 2).Draw(t, "tpnoroot") != 0 {
+				c.Root = false
+			}
+			header := func() m.Entry {
+				return m.Entry{Tx: &m.Tx{Date: m.Date{Y: 2031, M: 1, D: 2, Sep: "-", Pad: true}, Payee: "tmpl payee"}, Blank: 1}
+			}
+			dtexts := append([]*m.Journal{ws.Files[ed.from].Journal}, c.Alts[ed.from]...)
+			dmax := 0
+			for _, dj := range dtexts {
+				dj.Entries = append(dj.Entries, header())
+				if sz := len(m.Render(dj).Text); sz > dmax {
+					dmax = sz
+				}
+			}
+			ej := ws.Files[ed.to].Journal
+			ej.Entries = append(ej.Entries, m.Entry{Tx: &m.Tx{Date: m.Date{Y: 2030, M: 5, D: 6, Sep: "-", Pad: true}, Payee: "tmpl payee",
+				Body: []m.BodyItem{{P: &m.Posting{Account: pools.Accounts[0], Amt: gen.GenAmountFor(t, p, "EUR", m.Num{Mant: "42", Scale: 0}), Indent: "    ", Sep: "  "}},
+					{P: &m.Posting{Account: pools.Accounts[len(pools.Accounts)-1], Indent: "    ", Sep: "  "}}}}, Blank: 1})
+			for k := 0; k < 64 && len(m.Render(ej).Text) <= dmax+8; k++ {
+				ej.Entries = append(ej.Entries, m.Entry{Tx: gen.GenTx(t, p, pools, jo.Tx), Blank: 1})
+			}
+			for k := 0; k < n; k++ {
+				if k != ed.from {
+					c.Ops = append(c.Ops, C14Op{Op: "close", Doc: k})
+				}
+			}
+			c.Ops = append(c.Ops,
+				C14Op{Op: "open", Doc: ed.from, Wait: 2},
+				C14Op{Op: "change", Doc: ed.from, Alt: rapid.IntRange(0, 2).Draw(t, "tpalt"), Wait: 2},
+				C14Op{Op: "request", Doc: ed.from, Kind: "inlineCompletion", AtEnd: true, Wait: 2}, // the template is there
+				C14Op{Op: "change", Doc: ed.from, Alt: rapid.IntRange(0, 2).Draw(t, "tpalt2"), Wait: 2},
+				C14Op{Op: "config", Doc: ed.from, Config: map[string]any{"limits": map[string]any{"maxFileSizeBytes": float64(dmax + rapid.IntRange(0, 8).Draw(t, "tpmargin"))}}, Rendezvous: true},
+				C14Op{Op: "request", Doc: ed.from, Kind: "inlineCompletion", AtEnd: true, Wait: 2},
+				C14Op{Op: "request", Doc: ed.from, Kind: "inlineCompletion", AtEnd: true, Wait: 2})
 		}
 	}
 	nd := rapid.IntRange(0, 12).Draw(t, "ndelays")
